@@ -8,13 +8,15 @@ ASSUME \A t \in 1..N : TLCSet(t, 0)
 TInit == tid \in 1..N /\ l = 1 /\ sc = <<>> /\ rendered = "no"
 ToSet(s) == {s[i] : i \in 1..Len(s)}
 Sc(e) == [prog |-> e.sc.prog, known |-> e.sc.known, attrs |-> ToSet(e.sc.attrs), rt |-> e.sc.rt, charge |-> e.sc.charge,
-          spinpol |-> e.sc.spinpol, kwargs |-> ToSet(e.sc.kwargs), template |-> e.sc.template]
+          spinpol |-> e.sc.spinpol, kwargs |-> ToSet(e.sc.kwargs), template |-> e.sc.template, falsy |-> e.sc.falsy, cb |-> e.sc.cb,
+          extra |-> e.sc.extra]
 \* e.text[f] = the text rendered for field f (only for the fields the template contains)
 RenderOK(e) == LET s == Sc(e) IN
   /\ e.out \in Outcomes(s)
   /\ (e.out = "ok" =>
         /\ \A f \in ToSet(e.fields) :
               (f = "run_type" /\ Source(s, f) = "attr" /\ Keyword(s.prog, s.rt[1]) = "?") \/ e.text[f] = ExpectedText(s, f)
+        /\ (s.extra \in {"given", "empty"} => e.extra_text = ExtraText(s))
         \* geometry: one line per atom, in order, right symbol, coordinates in angstrom
         /\ e.geom.nlines = e.geom.natom /\ e.geom.symbols_ok /\ e.geom.coords_ok)
 Step ==
